@@ -1213,6 +1213,10 @@ fn gen_tail(rng: &mut Rng, o: &GenOpts, pkg: &str, name: &str, ident: &str, ms: 
 pub(super) fn generate_x(tier: &str, rng: &mut Rng) -> Vec<String> {
     let thorough = tier == "thorough";
     let mut out = Vec::new();
+    // every method with a codec of its own (seed C11i)
+    for (pkg, name, kinds) in [("a", "S", "00"), ("a-b", "Svc", "0123"), ("-", "S", "3210"), ("pk", "E", "1"), ("a", "Mixed", "020131")] {
+        out.push(format!("gcod {} {} {}", pkg, name, kinds));
+    }
     let dflt = ProstOpts { emit: true, arc: false, stubs: false, sides: "both", wkt: false, ppath: "super", ext: "-" };
     let gd = GenOpts { emit: true, arc: false, stubs: false, transport: true, sides: "both", wkt: false, ppath: "super" };
     let shapes = fixed_shapes();
@@ -1448,8 +1452,59 @@ pub(super) fn generate_x(tier: &str, rng: &mut Rng) -> Vec<String> {
     out
 }
 
+/// `gcod <pkg> <svc> <kinds>`: one service whose methods each name their OWN codec (`Method::codec_path`: protobuf
+/// for one rpc, JSON for another - seed C11i: the server generator memoising the first method's codec for all).  Both
+/// sides are generated by `CodeGenBuilder`; for every method the codec the SERVER's dispatch arm constructs and the
+/// codec the CLIENT's method constructs are read off the emitted tokens (the `let codec = <path>::default()` nearest
+/// to the method's path literal).  `<kinds>`: one digit per method (0 unary, 1 server-streaming, 2 client-streaming,
+/// 3 bidi).  Observed: `server:<i0,i1,…> client:<i0,i1,…>` - the index of the codec each side uses for method j.
+fn run_gcod(t: &[&str]) -> String {
+    if t.len() != 4 {
+        return "bad-case".into();
+    }
+    let (pkg, name, kinds) = (undash(t[1]), t[2], t[3]);
+    if kinds.is_empty() || kinds.len() > 9 || !kinds.bytes().all(|b| (b'0'..=b'3').contains(&b)) {
+        return "bad-case".into();
+    }
+    let methods: Vec<XM> = kinds
+        .bytes()
+        .enumerate()
+        .map(|(j, k)| XM {
+            base: MDesc { name: format!("m{j}"), ident: format!("M{j}"), cs: k == b'2' || k == b'3', ss: k == b'1' || k == b'3', input: "F:crate::In".into(), output: "F:crate::Out".into() },
+            dep: false,
+            comments: vec![],
+            codec: format!("crate::codec::C{j}"),
+        })
+        .collect();
+    let svc = XS { name: name.to_string(), package: pkg.clone(), ident: name.to_string(), methods, comments: vec![] };
+    let b = tonic_build::CodeGenBuilder::new();
+    let server = b.generate_server(&svc, "super").to_string();
+    let client = b.generate_client(&svc, "super").to_string();
+    let full = if pkg.is_empty() { name.to_string() } else { format!("{pkg}.{name}") };
+    // `crate :: codec :: C<j>` as the token printer spells it
+    let codec_at = |text: &str, at: usize, backwards: bool| -> String {
+        let pat = "crate :: codec :: C";
+        let pos = if backwards { text[..at].rfind(pat) } else { text[at..].find(pat).map(|p| p + at) };
+        match pos {
+            Some(p) => text[p + pat.len()..].chars().take_while(|c| c.is_ascii_digit()).collect(),
+            None => "?".into(),
+        }
+    };
+    let mut srv = Vec::new();
+    let mut cli = Vec::new();
+    for j in 0..kinds.len() {
+        let lit = format!("\"/{full}/M{j}\"");
+        // server: the arm `"/pkg.Svc/Mj" => { … let codec = …` - the codec FOLLOWS the literal;
+        // client: `let codec = …; let path = PathAndQuery::from_static("/pkg.Svc/Mj")` - it PRECEDES it
+        srv.push(match server.find(&lit) { Some(at) => codec_at(&server, at, false), None => "-".into() });
+        cli.push(match client.find(&lit) { Some(at) => codec_at(&client, at, true), None => "-".into() });
+    }
+    format!("server:{} client:{}", srv.join(","), cli.join(","))
+}
+
 pub(super) fn execute_x(t: &[&str]) -> Option<String> {
     Some(match t[0] {
+        "gcod" => run_gcod(t),
         "px" => run_px(t),
         "gx" => run_gx(t),
         "gseq" => run_gseq(t),
